@@ -517,6 +517,14 @@ func genRenewExpr(repo string) (string, error) {
 			return "", fmt.Errorf("renewexpr: renewAfter = %s is not a decimal literal", frac)
 		}
 		num = n
+		// lowest terms, so that 0.75 and 0.750 give the same facts
+		g, b := num, den
+		for b != 0 {
+			g, b = b, g%b
+		}
+		if g > 1 {
+			num, den = num/g, den/g
+		}
 	}
 	unitNs := map[string]int64{"time.Second": 1e9, "time.Millisecond": 1e6, "time.Microsecond": 1e3, "time.Nanosecond": 1}
 	isDurCall := func(e ast.Expr) (ast.Expr, bool) {
